@@ -170,32 +170,60 @@ def run(prog, chk):
             chk.bad("C15.d", ae, "escape-does-not-round-trip:%d" % b, "%s:%s" % (ae.file, ae.line),
                     "the writer emits %s for byte %d but the reader's escape switch does not decode that sequence to %d" % (bytes(seq), b, b))
     # ------------------------------------------------------------------ e
+    def handled(f, keytext, values, impossible):
+        """values whose guard-directed walk through f differs from the walk of a value no arm can match (switch or if-chain alike)"""
+        base, _e = fin.walk(f, f.entry, {keytext: impossible}, stop_at_loop_back=False)
+        out = set()
+        for v in values:
+            seen, _e = fin.walk(f, f.entry, {keytext: v}, stop_at_loop_back=False)
+            if seen != base:
+                out.add(v)
+        return out, len(base)
+
+    def dispatch_key(f, pred):
+        """rendered text of the expression a switch / comparison chain of f dispatches on"""
+        for b_ in f.blocks.values():
+            c_ = b_.get("cond")
+            if c_ is None:
+                continue
+            for i_ in f.desc(c_):
+                t_ = q.no_casts(f.r(i_))
+                if pred(t_):
+                    return fin.key(f, i_)
+        for n_ in f.nodes:       # dispatch value kept in a local
+            if n_["k"] == "DeclStmt":
+                for d_ in n_["decls"]:
+                    if d_.get("init") is not None and pred(q.no_casts(f.r(d_["init"]))):
+                        return fin.key(f, f.strip(d_["init"]))
+        return None
+
     av = jfn(prog, J + "appendVariant")
-    sw = switches_on(av, lambda t: "getType()" in t)
     tags = R._enum_values(prog, "Variant::")
     tags = {k: v for k, v in tags.items() if k.endswith("Type")}
-    if sw:
-        have = set(v for v in case_values(av, sw[0]) if isinstance(v, int))
+    kt = dispatch_key(av, lambda t: re.fullmatch(r"\w+\.getType\(\)", t) is not None)
+    if kt:
+        have, nb = handled(av, kt, sorted(tags.values()), 10 ** 6)
+        # the null alternative may legitimately share the fall-back arm (it prints `null`): it counts as handled when the fall-back arm emits something
         miss = sorted(k for k, v in tags.items() if v not in have)
-        if miss:
-            chk.bad("C15.e", av, "serialiser-misses-tag:" + ",".join(m.split("::")[-1] for m in miss), "%s:%s" % (av.file, av.line), "appendVariant has no case for %s: such values are silently dropped from the output" % miss)
+        if miss and not (len(miss) == 1 and nb > 0 and miss[0].endswith("nullType")):
+            chk.bad("C15.e", av, "serialiser-misses-tag:" + ",".join(m.split("::")[-1] for m in miss), "%s:%s" % (av.file, av.line), "appendVariant has no arm for %s: such values are silently dropped from the output" % miss)
         else:
-            chk.ok("C15.e", av, "appendVariant has a case for all %d Variant tags" % len(tags), "%s:%s" % (av.file, av.line), "case labels vs enumerators", evals=len(tags))
+            chk.ok("C15.e", av, "appendVariant has an arm for all %d Variant tags" % len(tags), "%s:%s" % (av.file, av.line), "guard-directed walk per tag vs the fall-back walk", evals=len(tags))
     else:
-        chk.bad("C15.e", av, "serialiser-switch-missing", "%s:%s" % (av.file, av.line), "appendVariant does not switch on the Variant type")
+        chk.bad("C15.e", av, "serialiser-switch-missing", "%s:%s" % (av.file, av.line), "appendVariant does not dispatch on the Variant type")
     pv = jfn(prog, J + "parseValue")
-    sw = switches_on(pv, lambda t: t == "this->token.token")
     kinds = set(v for v in ov if isinstance(v, int)) - {0, ord("}"), ord("]"), ord(","), ord(":")}
     kinds |= set(fin.eval_expr(rt, s.rhs, {}) for s in q.stores(rt) if q.no_casts(rt.r(s.lhs)) == "this->token.token" and fin.eval_expr(rt, s.rhs, {}) is not None)
-    if sw:
-        have = set(v for v in case_values(pv, sw[0]) if isinstance(v, int))
+    kt = dispatch_key(pv, lambda t: t == "this->token.token")
+    if kt:
+        have, _nb = handled(pv, kt, sorted(kinds), 1)
         miss = sorted(k for k in kinds if k not in have)
         if miss:
             chk.bad("C15.e", pv, "parser-misses-token-kind:" + ",".join(chr(m) for m in miss), "%s:%s" % (pv.file, pv.line), "parseValue has no arm for token kinds %s produced by the tokenizer" % [chr(m) for m in miss])
         else:
-            chk.ok("C15.e", pv, "parseValue handles all %d value token kinds" % len(kinds), "%s:%s" % (pv.file, pv.line), "case labels vs tokenizer", evals=len(kinds))
+            chk.ok("C15.e", pv, "parseValue handles all %d value token kinds" % len(kinds), "%s:%s" % (pv.file, pv.line), "guard-directed walk per token kind vs the fall-back walk", evals=len(kinds))
     else:
-        chk.bad("C15.e", pv, "parser-switch-missing", "%s:%s" % (pv.file, pv.line), "parseValue does not switch on the token kind")
+        chk.bad("C15.e", pv, "parser-switch-missing", "%s:%s" % (pv.file, pv.line), "parseValue does not dispatch on the token kind")
     # ------------------------------------------------------------------ g: numeric token conversion
     chk.rule("C15.g", "WHO/DOM: the number token's text is converted only with the 64-bit / double conversions; an int is stored into the token value only "
                       "under the test that the narrowed value equals the 64-bit one", floor=2)
